@@ -2,7 +2,7 @@
 (Legacy.tla model checking, Gen_Legacy scenarios, the driver executable as the chain's plugins, Trace_Legacy)."""
 import pipeline, vlib
 
-INV = "InOrderOnce SeesEarlier FailFast Complete NoPartial ExitStatusIgnored"
+INV = "InOrderOnce SeesEarlier FailFast Complete NoPartial ExitStatusIgnored SkelAnswers"
 
 
 class Legacy(pipeline.Module):
@@ -23,16 +23,24 @@ class Legacy(pipeline.Module):
         return [
             dict(name="chains", consts='  Mode = "chains"\n  MaxLen = %d\n  Chains = {}' % (4 if th else 3), workers=4),
             dict(name="requests", consts='  Mode = "requests"\n  MaxLen = 2\n  Chains = {}'),
+            dict(name="skel", consts='  Mode = "skel"\n  MaxLen = 0\n  Chains = {}'),
         ]
 
     def driver_args(self, prop, tier, sd, scen, trace):
         return ["legacy", "-in", scen, "-out", trace]
 
+    def label_sig(self, label, detail):
+        # a panic of skel.Run is identified by the argument list and the standard input it happens with
+        if label == "X05-skel-panic":
+            return "%s/%s/%s" % (label, "+".join(detail[0]) if detail[0] else "no-argument", detail[1])
+        return label
+
     def rule(self):
         return ("scenario = a chain of up to 3 (4) plugins, each with one of 9 ways to end (result, error, result "
                 "carrying an error, output that is not JSON, no output, non-zero exit status with and without a result, "
                 "missing executable; a hanging plugin alone and in the middle), or one of 5 x 3 x 4 x 2 request shapes "
-                "(state, sandbox, OCI spec kind, pid) for a chain of two")
+                "(state, sandbox, OCI spec kind, pid) for a chain of two; or skel.Run as a program: 5 argument lists x 3 "
+                "contents of standard input x 3 plugin behaviours")
 
 
 def run(prop, tier, replay=None):
